@@ -564,18 +564,22 @@ def World.exec (w : World) (op : String) (args : List String) : World :=
     | "craft" | "lcraft" =>
       let isL := op == "lcraft"
       let srcIdx := if isL then 2 else 1
-      match w.getEp (n 0), w.getEp (n srcIdx) with
-      | some r, some s =>
+      match w.getEp (n srcIdx) with
+      | some s =>
         match pick s (toInt! (a (srcIdx + 1))) with
         | some d =>
           match craftDatagram w.env d ((args.drop (srcIdx + 2)).map toInt!) with
           | some d' =>
-            match r.node with
-            | .lsn _ => if isL then w.deliverLsn (n 0) (a 1) d' else w
-            | .conn _ => if isL then w else w.deliverConn (n 0) d' false
+            -- (a destination that does not exist, or is of the other kind, silently receives nothing — as in the harness)
+            match w.getEp (n 0) with
+            | some r =>
+              match r.node with
+              | .lsn _ => if isL then w.deliverLsn (n 0) (a 1) d' else w
+              | .conn _ => if isL then w else w.deliverConn (n 0) d' false
+            | none => w
           | none => w.say "ret none"
         | none => w.say "ret none"
-      | _, _ => w.say "ret none"
+      | none => w.say "ret none"
     | "sendfill" =>
       match w.getEp (n 0) with
       | some r => match r.node with
@@ -604,6 +608,11 @@ def World.exec (w : World) (op : String) (args : List String) : World :=
         | .ok b' rest =>
           if rest != sentinel then w.say "codec mismatch position"
           else if b' == expectView b then w.say s!"codec ok {enc.length}" else w.say "codec mismatch fields"
+    | "bbbits" =>
+      let nbits := n 0 % 2049
+      let bits := (bytesToBits (payloadBytes (n 2) 300)).take nbits
+      -- written at any bit offset and read back: the S-level buffer is a list of bits, so the run comes back as it went in
+      w.say s!"bb ok {nbits} {hex64 (fnv64 (bitsToBytes bits))} 1 {nbits + 1}"
     | "bbint" | "bbwrapped" | "bbpacked" =>
       let v := n 0 % 4294967296
       let mx := n 1 % 4294967296
